@@ -219,6 +219,47 @@ def views_rule(rep, prog):
         elif is_none(pos) and elems:
             rep.violation("R2", "all_position:extra", "all_position lists an aircraft without a position")
     rep.floor("all_position paths", 2, m)
+    # several aircraft, some without a position: every listed position stands under the address of the record it comes from
+    S = entry.summaries()
+
+    def record(ip_, st_, name, with_pos):
+        rec = S.existing_value(ip_, st_, {"k": "adt", "path": "rsadsb_common::AirplaneState", "args": []})
+        names = decode.field_names(prog, rec)
+        coords = rec.fields[names.index("coords")]
+        cn = decode.field_names(prog, coords)
+        cf = list(coords.fields)
+        pos = AdtVal("adsb_deku::cpr::Position", 0, [FloatVal(64, term=("sym", name + ".lat")), FloatVal(64, term=("sym", name + ".lon"))], vname="Position")
+        cf[cn.index("position")] = some_(pos) if with_pos else NONE_
+        rf = list(rec.fields)
+        rf[names.index("coords")] = AdtVal(coords.path, 0, cf, vname=coords.vname)
+        return AdtVal(rec.path, 0, rf, vname=rec.vname), pos
+    k = 0
+    for shape in ((False, True), (True, False), (False, True, False, True), (True, True)):
+        ip3 = entry.new_interp(prog, max_seconds=60, merge_returns=False)
+        st3 = State()
+        keys, cells, want = [], [], []
+        for j, wp in enumerate(shape):
+            key = AdtVal("adsb_deku::ICAO", 0, [ArrayVal([IntVal.const(U8, 0), IntVal.const(U8, 0), IntVal.const(U8, j + 1)], 3)], vname="ICAO")
+            rec, pos = record(ip3, st3, "rec%d" % j, wp)
+            keys.append(key)
+            cells.append((fp(key), RefVal(st3.new_heap(rec), True)))
+            if wp:
+                want.append((fp(key), fp(pos)))
+        mp = Opaque.make("btreemap", cells=tuple(cells), complete=True, keys=tuple(keys))
+        ploc3 = st3.new_heap(AdtVal("rsadsb_common::Airplanes", 0, [mp], vname="Airplanes"))
+        outs3 = ip3.run_function(fn2, [RefVal(ploc3, False)], st3)
+        for o in outs3:
+            rv = o.retval
+            elems = rv.get("elems") if isinstance(rv, Opaque) and rv.kind == "vec" else None
+            k += 1
+            rep.instance(rid, "all_position|several|%d" % k, sample={"records_with_position": list(shape), "listed": len(elems) if elems is not None else None} if k == 1 else None)
+            got = None
+            if elems is not None and all(isinstance(e, TupleVal) and len(e.fields) == 2 for e in elems):
+                got = [(fp(e.fields[0]), fp(e.fields[1])) for e in elems]
+            if got != want:
+                rep.violation("R2", "all_position:misattributed", "with %d tracked aircraft of which those at index %s have a position, all_position does not list exactly each of these under its own address with its own position (listed: %r)"
+                              % (len(shape), [j for j, wp in enumerate(shape) if wp], rv))
+    rep.floor("all_position paths with several aircraft", 4, k)
 
 
 def run(rep, tier, replay=None):
